@@ -149,7 +149,8 @@ fn run(f: &[String]) -> String {
                     }
                 }
                 let max: usize = f[3].parse().unwrap();
-                let mut ipt = CustomReader::new(String::new());
+                let stdin_text = if f.len() > 4 { f[4].replace("\\n", "\n") } else { String::new() };
+                let mut ipt = CustomReader::new(stdin_text);
                 let mut o = CustomWriter::new(|_| Ok(()));
                 let mut e = CustomWriter::new(|_| Ok(()));
                 let mut loc = 0usize;
